@@ -523,10 +523,23 @@ func (c *Ctx) arith(op token.Token, a, b *Term, t types.Type) *Term {
 		}
 		return mk("tdiv", IntSort, a, b)
 	case token.REM:
+		var r *Term
 		if !signed {
-			return mk("mod", IntSort, a, b)
+			r = mk("mod", IntSort, a, b)
+		} else {
+			r = mk("tmod", IntSort, a, b)
 		}
-		return mk("tmod", IntSort, a, b)
+		if _, isConst := intLitVal(b); !isConst && isGround(a, nil) && isGround(b, nil) {
+			// linear facts about a remainder by a symbolic divisor (valid for
+			// SMT mod and for Go's truncated %), so that the solvers need no
+			// nonlinear reasoning for ring indices
+			z := IntLit(0)
+			pos := And(mk(">", BoolSort, b, z), mk(">=", BoolSort, a, z))
+			c.addHyp(Implies(pos, And(mk("<=", BoolSort, z, r), mk("<", BoolSort, r, b),
+				Implies(mk("<", BoolSort, a, b), Eq(r, a)),
+				Implies(And(mk("<=", BoolSort, b, a), mk("<", BoolSort, a, mk("+", IntSort, b, b))), Eq(r, mk("-", IntSort, a, b))))))
+		}
+		return r
 	case token.SHL:
 		if k, ok := intLitVal(b); ok && k >= 0 && k < 64 {
 			return mk("*", IntSort, a, BigIntLit(new(big.Int).Lsh(big.NewInt(1), uint(k))))
